@@ -1,6 +1,6 @@
 (* Property C09 -- every command acts only with the credential it requires *)
 (* Statements only: each theorem restates the proved lemma's statement and is closed by [exact]. *)
-From NunDB Require Import Model.Base Model.Pending Model.Parse Model.Node Proofs.GuardProofs.
+From NunDB Require Import Model.Base Model.Pending Model.Parse Model.Node Proofs.GuardProofs Proofs.RevokeProofs.
 Local Open Scope Z_scope.
 
 (* administrative and cluster requests from an unauthenticated session: nothing changes, the reply is 'Not auth' *)
@@ -108,3 +108,104 @@ Theorem C09_no_list_no_value :
            RValue "keys" (keys_fold (list_keys d p false)) (-1))).
 Proof. exact no_list_no_value. Qed.
 Print Assumptions C09_no_list_no_value.
+
+(* the tombstone text of a removed value, read as a permission statement, grants nothing *)
+Theorem C09_empty_text_grants_nothing :
+  forall (key : str) (kind : perm_kind), list_grants (permissions_from_str "<Empty>") key kind = false.
+Proof. exact empty_text_grants_nothing. Qed.
+Print Assumptions C09_empty_text_grants_nothing.
+
+(* a user whose list is a tombstone is denied every key, every kind *)
+Theorem C09_tombstone_list_denies :
+  forall (n : node) (c : nat) (u : str) (d : db) (v : value) (key : str) (kind : perm_kind),
+         s_user (get_sess n c) = Some u ->
+         starts_with key "$$" = false ->
+         get_value d (perm_key u) = Some v -> v_val v = "<Empty>" -> has_permission n c key d kind = false.
+Proof. exact tombstone_list_denies. Qed.
+Print Assumptions C09_tombstone_list_denies.
+
+(* a user (other than the open-access name `all`) without a list is denied *)
+Theorem C09_absent_list_denies :
+  forall (n : node) (c : nat) (u : str) (d : db) (key : str) (kind : perm_kind),
+         s_user (get_sess n c) = Some u ->
+         u <> "all" ->
+         starts_with key "$$" = false ->
+         get_value d (perm_key u) = None -> has_permission n c key d kind = false.
+Proof. exact absent_list_denies. Qed.
+Print Assumptions C09_absent_list_denies.
+
+(* removing the list revokes, whatever the persisted state of the entry (dropped, or tombstone) *)
+Theorem C09_remove_list_revokes :
+  forall (n' : node) (c : nat) (u : str) (d : db) (key : str) (kind : perm_kind),
+         s_user (get_sess n' c) = Some u ->
+         u <> "all" ->
+         starts_with key "$$" = false -> has_permission n' c key (rm_db d (perm_key u)) kind = false.
+Proof. exact remove_list_revokes. Qed.
+Print Assumptions C09_remove_list_revokes.
+
+(* for an entry that reached the disk this holds for every user name *)
+Theorem C09_remove_list_revokes_persisted :
+  forall (n' : node) (c : nat) (u : str) (d : db) (v : value) (key : str) (kind : perm_kind),
+         s_user (get_sess n' c) = Some u ->
+         starts_with key "$$" = false ->
+         get_value d (perm_key u) = Some v ->
+         v_st v <> VNew -> has_permission n' c key (rm_db d (perm_key u)) kind = false.
+Proof. exact remove_list_revokes_persisted. Qed.
+Print Assumptions C09_remove_list_revokes_persisted.
+
+(* the administrator's `remove $$permission_$<u>` takes effect on the very next request of the user's open session: every keyed request is refused and changes nothing but the refusal message *)
+Theorem C09_revocation_immediate :
+  forall (n : node) (a c : nat) (dbn : str) (d : db) (u : str),
+         s_auth (get_sess n a) = true ->
+         s_db (get_sess n a) = Some dbn ->
+         get_db n dbn = Some d ->
+         ConvergeProofs.simple_tok u ->
+         u <> "all" ->
+         s_auth (get_sess n c) = false ->
+         s_user (get_sess n c) = Some u ->
+         s_db (get_sess n c) = Some dbn ->
+         let n' := fst (step n a ("remove $$permission_$" +++ u)) in
+         snd (step n a ("remove $$permission_$" +++ u)) = ROk /\
+         get_db n' dbn = Some (rm_db d (perm_key u)) /\
+         list_revoked (rm_db d (perm_key u)) u /\
+         (forall (rq : request) (k : str) (kind : perm_kind),
+          rq_key_kind rq = Some (k, kind) ->
+          starts_with k "$$" = false -> handle n' c rq = (send n' c denied_msg, RError denied_msg)) /\
+         (forall (line : str) (rq : request) (k : str) (kind : perm_kind),
+          parse_request (trim_char nl line) = POk rq ->
+          rq_key_kind rq = Some (k, kind) ->
+          starts_with k "$$" = false -> step n' c line = (send n' c denied_msg, RError denied_msg)).
+Proof. exact revocation_immediate. Qed.
+Print Assumptions C09_revocation_immediate.
+
+(* kept visible: for the open-access name `all` a dropped list means open access ... *)
+Theorem C09_all_remove_new_opens :
+  has_permission all_node 0 "b" (rm_db (all_db VNew) (perm_key "all")) PWrite = true.
+Proof. exact all_remove_new_opens. Qed.
+Print Assumptions C09_all_remove_new_opens.
+
+(* ... while a tombstoned list denies everything: the effect of the removal depends on whether a snapshot happened in between *)
+Theorem C09_all_remove_persisted_closes :
+  has_permission all_node 0 "b" (rm_db (all_db VOk) (perm_key "all")) PWrite = false /\
+         has_permission all_node 0 "a" (rm_db (all_db VOk) (perm_key "all")) PRead = false.
+Proof. exact all_remove_persisted_closes. Qed.
+Print Assumptions C09_all_remove_persisted_closes.
+
+(* non-vacuity: both variants (dropped, tombstone) through the handlers *)
+Theorem C09_revoke_example :
+  bob_list rx2 = Some ("rw a*", VNew) /\
+         snd (step rx2 1 "get a") = RValue "a" "1" 0 /\
+         bob_list rxA = None /\
+         snd (step rxA 1 "get a") = RError denied_msg /\
+         snd (step rxA 1 "set a 2") = RError denied_msg /\
+         fst (step rxA 1 "get a") = send rxA 1 denied_msg /\
+         bob_list rxB0 = Some ("rw a*", VOk) /\
+         snd (step rxB0 1 "get a") = RValue "a" "1" 0 /\
+         bob_list rxB = Some ("<Empty>", VDeleted) /\
+         snd (step rxB 1 "get a") = RError denied_msg /\
+         snd (step rxB 1 "set a 2") = RError denied_msg /\
+         snd (step rxB 1 "increment a 1") = RError denied_msg /\
+         snd (step rxB 1 "remove a") = RError denied_msg /\
+         snd (step rxB 1 "watch a") = RError denied_msg /\ fst (step rxB 1 "get a") = send rxB 1 denied_msg.
+Proof. exact revoke_example. Qed.
+Print Assumptions C09_revoke_example.
